@@ -117,7 +117,7 @@ def run_shard(ctx, shard, acc):
     if shard['mode'] == 'exh':
         for t, els in shard['types']:
             syms = symbol_subset(t, 5)
-            for ops in enum_histories(t, 3, 5 if ctx.quick else 6):
+            for ops in enum_histories(t, 3, 8 if ctx.quick else 12):
                 A, f, failed = check(els[0], ops, syms if not ctx.quick else syms[:3])
                 if A.e is None:
                     break
